@@ -35,6 +35,12 @@ def configs(tier, seed):
             out.append(_cfg('period', s, n, f, r, 'pyfloat'))
             if f <= n:
                 out.append(_cfg('period', s, n, f, r, 'pyint'))
+    # NumPy scalar carriers of narrow dtypes: the scaled value must not be computed (and wrapped) in the carrier's own width
+    narrow = [(s, n, f) for (s, n, f) in C.formats_q() if 0 < f <= n + 1 and n <= 33]
+    for (s, n, f) in C.pick(narrow, 30 if tier == 'quick' else len(narrow), rng):
+        for car in (('np:int8', 'np:int16', 'np:uint8', 'np:uint16', 'np:int32', 'np:float32') if tier == 'thorough' else
+                    C.pick(('np:int8', 'np:int16', 'np:uint8', 'np:uint16', 'np:int32', 'np:float32'), 2, rng)):
+            out.append(_cfg('congruence', s, n, f, rng.choice(SP.ROUNDINGS), car))
     wide = WIDE if tier == 'thorough' else C.pick(WIDE, 4, rng)
     for n in wide:
         for s in (True, False):
@@ -60,6 +66,15 @@ def cost(cfg):
 def inputs(cfg):
     s, n, f = cfg['signed'], cfg['n_word'], cfg['n_frac']
     p = cfg['part']
+    if p == 'congruence' and cfg['carrier'].startswith('np:'):
+        from . import C01 as P01
+        d = cfg['carrier'][3:]
+        if d in P01.INT_DT:
+            lo, hi = P01.INT_DT[d]
+            return {'v': dict(kind='int', lo=lo, hi=hi)}
+        sig, emin, emax = P01.FLT_DT[d]
+        b = min(40, 62 - f)
+        return {'v': dict(kind='float', lo=-(1 << (b + 8)) + 1, hi=(1 << (b + 8)) - 1, exp=-8, sig=sig)}
     if p in ('congruence', 'period'):
         if cfg['carrier'] == 'pyint':
             b = min(53, 62 - f)
@@ -126,7 +141,10 @@ def run(F, cfg, inp):
     mk = lambda: F.Fxp(None, s, n, f, rounding=cfg['rounding'], overflow='wrap')
     if p in ('congruence', 'wide'):
         x = mk()
-        x.set_val(inp['v'], raw=cfg.get('raw', False))
+        v = inp['v']
+        if cfg['carrier'].startswith('np:'):
+            v = C.mk_scalar(F, cfg['carrier'][3:], v)
+        x.set_val(v, raw=cfg.get('raw', False))
         return dict(val=O.snap(x.val), status={k: bool(v) for k, v in x.status.items()})
     if p in ('period', 'wide_period'):
         x, y = mk(), mk()
